@@ -83,6 +83,7 @@ type mInput struct {
 }
 
 type matcher struct {
+	cur   map[string]any // model-level material to re-run the case at hand
 	t     *testing.T
 	res   *vh.Result
 	in    *mInput
@@ -197,13 +198,22 @@ func (x *matcher) checkState(n mNode, how string, serve bool) bool {
 	for _, q := range x.in.QNames {
 		want := blocked[key(q)]
 		canon := x.name(q)
+		// self-check of the Go reference matcher the persistence drivers use
+		// (harness fault, not a verdict, if it disagrees with TLC's table)
+		ents := x.names(n.M)
+		for _, s := range x.names(n.Wild) {
+			ents = append(ents, "*."+s)
+		}
+		if refBlocked(ents, x.names(n.W), canon) != want {
+			x.t.Fatalf("harness reference matcher disagrees with the specification's table on %q with %v", canon, nodeDesc(x, n))
+		}
 		asked := x.spell(canon, true)
 		got := x.bl.Exists(asked)
 		x.res.Count("exists_calls", 1)
 		if got != want {
 			x.res.Violate("matcher/MatchExact",
 				fmt.Sprintf("Exists(%q) = %v but the statement says blocked = %v with lists %v (%s)", asked, got, want, nodeDesc(x, n), how),
-				map[string]any{"driver": "matcher", "shape": x.shape, "lists": nodeDesc(x, n), "query": asked, "want": want, "got": got, "how": how})
+				map[string]any{"driver": "matcher", "shape": x.shape, "lists": nodeDesc(x, n), "query": asked, "want": want, "got": got, "how": how, "model": x.cur})
 			ok = false
 			continue
 		}
@@ -234,7 +244,7 @@ func (x *matcher) serve(n mNode, how, qname string, qtype uint16, want bool) boo
 	viol := func(pred, what string) bool {
 		x.res.Violate("matcher/"+pred,
 			fmt.Sprintf("ServeDNS(%s %s) with lists %v (%s): %s", qname, tname, nodeDesc(x, n), how, what),
-			map[string]any{"driver": "matcher", "shape": x.shape, "lists": nodeDesc(x, n), "query": qname, "qtype": tname, "blocked": want, "how": how})
+			map[string]any{"driver": "matcher", "shape": x.shape, "lists": nodeDesc(x, n), "query": qname, "qtype": tname, "blocked": want, "how": how, "model": x.cur})
 		return false
 	}
 	if !want {
@@ -385,6 +395,7 @@ func TestMatcherReplay(t *testing.T) {
 		for _, id := range ids {
 			n := in.Nodes[id]
 			x.inject(n)
+			x.cur = map[string]any{"nodes": map[string]mNode{"r": n}}
 			x.checkState(n, "lists put in place", true)
 			res.Case(fmt.Sprintf("state:%d:%s", si, id))
 			// ---- every mutating edge out of it, through the real API
@@ -395,6 +406,7 @@ func TestMatcherReplay(t *testing.T) {
 				x.inject(n)
 				dst := in.Nodes[e.Dst]
 				how := callDesc(e.Call)
+				x.cur = map[string]any{"nodes": map[string]mNode{"r": n, "d": dst}, "edges": []mEdge{{Src: "r", Dst: "d", Call: e.Call}}}
 				x.apply(e.Call, n, dst, how)
 				x.checkState(dst, "after "+how, false)
 				res.Case(fmt.Sprintf("edge:%d:%s:%s", si, id, how))
@@ -412,6 +424,7 @@ func TestMatcherReplay(t *testing.T) {
 			for i, st := range b {
 				how := callDesc(st.Call)
 				hist = append(hist, how)
+				x.cur = map[string]any{"behaviours": [][]mStep{b[:i+1]}}
 				x.apply(st.Call, prev, st.Node, how)
 				x.checkState(st.Node, "history "+strings.Join(hist, ";"), i%in.ServeEvery == 0)
 				prev = st.Node
